@@ -205,3 +205,12 @@ Proof.
     + apply (IH _ _ H2). lia.
   - assert (x = lo) by lia. subst. exact H.
 Qed.
+
+(* comparisons of integer values *)
+Inductive cmpop := Ceq | Cne | Clt | Cle | Cgt | Cge.
+Definition cmp (c : cmpop) (x y : Z) : bool :=
+  match c with
+  | Ceq => x =? y | Cne => negb (x =? y) | Clt => x <? y | Cle => x <=? y | Cgt => y <? x | Cge => y <=? x
+  end.
+Definition ocmp (c : cmpop) (a b : option Z) : option bool :=
+  match a, b with Some x, Some y => Some (cmp c x y) | _, _ => None end.
